@@ -14,7 +14,7 @@ func init() {
 		Run:          func(s *simrt.Sim) { udprelay.Run(s, udprelay.FocusC11) },
 		MaxSteps:     300000,
 		QuickRuns:    5000,
-		ThoroughSecs: 600,
+		ThoroughSecs: 400,
 		YieldFiles:   []string{"direct/packet.go", "direct/udp.go", "service/udp_nat.go", "service/udp_nat_mmsg.go", "service/udp_session.go", "service/udp_session_mmsg.go", "netio/udp.go"},
 		Rule: "one run = one relay configuration (server protocol x client protocol, MTUs, generic or recvmmsg/sendmmsg path, batch sizes, users, padding, router reject route) with 1-5 " +
 			"concurrent sessions, each with 1-3 distinct IP/IPv4-mapped/IPv6/domain targets (scripted resolver delays), tagged datagrams interleaved across sessions, optional client address change, " +
